@@ -33,8 +33,8 @@ class AbstractProcess:
 
     # the stand-in for Interface::run
     def standin(s, ex, fn, args, env):
-        data = as_slice(args[1])
-        wr = deref(args[2])
+        data = as_slice(args[-2])      # (self, [path,] data, response)
+        wr = deref(args[-1])
         key = tuple((b.decl().name() if z3.is_expr(b) else ('c', b)) for b in data.items())
         ent = s.table.get(key)
         if ent is None:
